@@ -131,14 +131,60 @@ func (x *hxExtractor) ownCtx(e ast.Expr, depth int) bool {
 		if !ok {
 			return false
 		}
-		t := x.paramType(id.Name)
-		return t != nil && hxBaseName(t) == "executor"
+		if t := x.paramType(id.Name); t != nil {
+			return hxBaseName(t) == "executor"
+		}
+		// a local executor all of whose sources are in-package constructors that were handed the own context
+		if !x.locals[id.Name] || len(x.assignRHS[id.Name]) == 0 {
+			return false
+		}
+		for _, r := range x.assignRHS[id.Name] {
+			if r == nil || !x.executorOfOwnCtx(r, depth+1) {
+				return false
+			}
+		}
+		return true
 	case *ast.CallExpr:
 		if id, ok := v.Fun.(*ast.Ident); ok && x.tab.CtxBuilders[id.Name] && !x.locals[id.Name] {
 			return true
 		}
 	}
 	return false
+}
+
+// executorOfOwnCtx: e is a call of an in-package function whose first result is an *executor and all of whose
+// *vmContext arguments are the own context (newExecutor(..., ctx, ...)).
+func (x *hxExtractor) executorOfOwnCtx(e ast.Expr, depth int) bool {
+	c, ok := hxUnparen(e).(*ast.CallExpr)
+	if !ok {
+		return false
+	}
+	id, ok := c.Fun.(*ast.Ident)
+	if !ok || x.locals[id.Name] {
+		return false
+	}
+	fd := x.pkg.funcs[id.Name]
+	if fd == nil || fd.Type.Results == nil || len(fd.Type.Results.List) == 0 || hxBaseName(fd.Type.Results.List[0].Type) != "executor" {
+		return false
+	}
+	seen := false
+	i := 0
+	for _, f := range fd.Type.Params.List {
+		n := len(f.Names)
+		if n == 0 {
+			n = 1
+		}
+		for k := 0; k < n; k++ {
+			if hxBaseName(f.Type) == "vmContext" {
+				if i >= len(c.Args) || !x.ownCtx(c.Args[i], depth+1) {
+					return false
+				}
+				seen = true
+			}
+			i++
+		}
+	}
+	return seen
 }
 
 // flagField: e is `<own context>.<f>`; a selector of that name on anything else is recorded as foreign.
@@ -529,12 +575,26 @@ func (x *hxExtractor) ifaceImpls() {
 		if _, ok := x.pkg.ifaces[iface]; !ok {
 			continue
 		}
-		var impls []string
-		for name, fd := range x.pkg.funcs {
-			if fd.Recv != nil && fd.Name.Name == m {
-				if _, isIface := x.pkg.ifaces[hxRecvName(fd)]; !isIface {
-					impls = append(impls, name)
+		// the types that implement the interface: every method of it resolves (directly or through an embedded
+		// in-package type)
+		var types []string
+		for tn := range x.pkg.structs {
+			all := true
+			for im := range x.pkg.ifaces[iface] {
+				if fd, fp := x.method("", tn, im, 0); fd == nil || fp != "" {
+					all = false
+					break
 				}
+			}
+			if all && len(x.pkg.ifaces[iface]) > 0 {
+				types = append(types, tn)
+			}
+		}
+		sort.Strings(types)
+		var impls []string
+		for _, tn := range types {
+			if fd, _ := x.method("", tn, m, 0); fd != nil {
+				impls = hxAddUnique(impls, hxFuncName(fd))
 			}
 		}
 		sort.Strings(impls)
